@@ -680,7 +680,9 @@ def _gen_mi(b, mod):
 
 
 def _utc(draw):
-    y = draw(st.integers(1990, 2030))
+    # the two-digit form always means 19YY (RFC 2578 3.1), also for YY below 69
+    y = draw(st.one_of(st.integers(1990, 2030), st.sampled_from((1900, 1905, 1950, 1968, 1969, 1970, 1999, 2000, 2038, 2068, 2099)),
+                       st.integers(1900, 2099)))
     mo = draw(st.integers(1, 12))
     dd = draw(st.integers(1, 28))
     hh = draw(st.integers(0, 23))
